@@ -322,6 +322,75 @@ pub fn generate_table(seed: u64, blob: bool) -> History {
     History { cfg, ops }
 }
 
+/// Leveled-compaction heavy histories: a populated last level (several tables), then a few
+/// narrow and wide L0 runs with overwrites and deletes of keys living below, then a leveled
+/// compaction and reads of every key; repeated.
+pub fn generate_lvl(seed: u64, blob: bool) -> History {
+    let mut rng = Rng::new(seed ^ 0x1E7E_1ED0);
+    let cfg = rand_cfg(&mut rng, blob);
+    let mut keys = key_universe(&mut rng);
+    keys.sort();
+    let mut vn = 0u64;
+    let mut ops = Vec::new();
+    let cycles = rng.range(1, 3);
+    for _ in 0..cycles {
+        // populate and push down
+        for k in &keys {
+            if rng.chance(2, 3) {
+                ops.push(Op::Put(k.clone(), rand_value(&mut rng, &mut vn, false)));
+            }
+        }
+        ops.push(Op::FlushActive(Wm::Zero));
+        ops.push(Op::Major { target: *rng.pick(&[1u64, 120, 400, 1 << 20]), w: rand_wm(&mut rng) });
+        // a few L0 runs of different widths
+        let runs = rng.range(1, 5);
+        for ri in 0..runs {
+            // usually the OLDEST L0 run is the wide one and the newer ones are narrow
+            let wide = if ri == 0 { rng.chance(2, 3) } else { rng.chance(1, 6) };
+            let lo = rng.below(keys.len() as u64) as usize;
+            let span = if wide { keys.len() } else { rng.range(1, 3) as usize };
+            let start = if wide { 0 } else { lo };
+            for k in keys.iter().skip(start).take(span) {
+                if rng.chance(1, 2) {
+                    continue;
+                }
+                if rng.chance(if wide { 1 } else { 1 }, if wide { 2 } else { 4 }) {
+                    ops.push(Op::Del(k.clone()));
+                } else {
+                    ops.push(Op::Put(k.clone(), rand_value(&mut rng, &mut vn, false)));
+                }
+            }
+            if wide {
+                // make sure both ends are touched
+                ops.push(Op::Put(keys[0].clone(), rand_value(&mut rng, &mut vn, false)));
+                ops.push(Op::Put(keys[keys.len() - 1].clone(), rand_value(&mut rng, &mut vn, false)));
+            }
+            ops.push(Op::FlushActive(rand_wm(&mut rng)));
+            if rng.chance(1, 4) {
+                ops.push(Op::Snap(0));
+                ops.push(Op::Rel(0));
+            }
+        }
+        ops.push(Op::Leveled {
+            l0: *rng.pick(&[1u8, 1, 2, 2, 3]),
+            target: *rng.pick(&[1u64, 200, 600, 1 << 20]),
+            w: rand_wm(&mut rng),
+        });
+        if rng.chance(1, 2) {
+            ops.push(Op::Leveled { l0: 1, target: *rng.pick(&[1u64, 300, 1 << 20]), w: rand_wm(&mut rng) });
+        }
+        for k in &keys {
+            ops.push(Op::Get(k.clone(), None));
+        }
+        let full = "F".repeat(keys.len() + 2);
+        ops.push(Op::Range(Bnd::Unb, Bnd::Unb, full, None));
+        if rng.chance(1, 3) {
+            ops.push(Op::Reopen);
+        }
+    }
+    History { cfg, ops }
+}
+
 /// Profiles:
 ///  tree    inserts/deletes + rotate/flush/leveled/major + snapshots + reads + reopen
 ///  moves   tree + movedown/pulldown (executed by the driver only in safe positions)
@@ -334,10 +403,20 @@ pub fn generate(profile: &str, seed: u64, n_ops: usize, blob: bool) -> History {
     if profile == "table" {
         return generate_table(seed, blob);
     }
+    if profile == "lvl" {
+        return generate_lvl(seed, blob);
+    }
     let mut rng = Rng::new(seed ^ (profile.len() as u64) << 48 ^ u64::from(profile.as_bytes()[0]) << 40);
     let mut cfg = rand_cfg(&mut rng, blob);
     if profile == "filter" {
         cfg.cfilter = true;
+    }
+    if profile == "blob" {
+        cfg.blob = true;
+        cfg.sep_threshold = *rng.pick(&[1u32, 4, 8, 16]);
+        cfg.blob_target = *rng.pick(&[64u64, 256, 1 << 20]);
+        cfg.staleness = *rng.pick(&[0.0f32, 0.01, 0.25, 0.5]);
+        cfg.age_cutoff = *rng.pick(&[0.5f32, 1.0, 1.0]);
     }
     let mut st = GenState {
         keys: key_universe(&mut rng),
@@ -449,7 +528,22 @@ pub fn generate(profile: &str, seed: u64, n_ops: usize, blob: bool) -> History {
                         .collect();
                     ops.push(Op::Ingest(items));
                 }
-                "drop" => {
+                "blob" if rng.chance(1, 2) => {
+                    let mut ks: Vec<Vec<u8>> = st.keys.clone();
+                    ks.retain(|_| rng.chance(1, 3));
+                    let items = ks
+                        .into_iter()
+                        .map(|k| match rng.below(6) {
+                            0 => IngItem::Del(k),
+                            _ => {
+                                let v = rand_value(&mut rng, &mut st.vn, true);
+                                IngItem::Put(k, v)
+                            }
+                        })
+                        .collect();
+                    ops.push(Op::Ingest(items));
+                }
+                "drop" | "blob" => {
                     if rng.chance(1, 6) {
                         ops.push(Op::Clear);
                     } else {
